@@ -31,9 +31,9 @@ RULE = ("one case = (tree, exclusion list, way of reaching: each relative file p
 ASSUMPTIONS = ["the working directory is the codebase root (as the property states)",
                "hidden files named explicitly and hidden directories given as the target are not judged (the property constrains hidden "
                "files only when reached through a directory)"]
-BOUNDS = {"quick": dict(n=32, trees=1500), "thorough": dict(n=64, trees=12000)}
+BOUNDS = {"quick": dict(n=32, trees=1500), "thorough": dict(n=64, trees=40000)}
 MINIMUM = {"quick": {"monitor.check_runs": 8000, "monitor.files_compared": 15000, "monitor.listing_lines_parsed": 2500},
-           "thorough": {"monitor.check_runs": 100000, "monitor.files_compared": 250000, "monitor.listing_lines_parsed": 60000}}
+           "thorough": {"monitor.check_runs": 200000, "monitor.files_compared": 400000, "monitor.listing_lines_parsed": 50000}}
 LANG_OF_EXT = {".py": "Python", ".js": "JavaScript", ".ts": "TypeScript", ".c": "C", ".cpp": "C++", ".cs": "C#", ".java": "Java"}
 LINE = re.compile(r"^(?P<path>.+?):(?P<line>\d+):(?P<col>\d+): (?P<len>\d+) (?P<sym>\S) (?P<name>.+)$")
 
